@@ -17,6 +17,7 @@
 import Hy.Proofs.Frag
 import Hy.Proofs.AutoFrag
 import Hy.Gen.C05Shape
+import Hy.Gen.TransUDPSize
 set_option linter.unusedSimpArgs false
 namespace Hy.Props.C05
 open Hy Hy.Frag Hy.Res
@@ -26,6 +27,41 @@ theorem const_msg : Gen.MaxMessageLength = 2048 := by decide
 /-- ParseUDPMessage bounds the address with MaxMessageLength; the property speaks of addresses
     up to MaxAddressLength — the two must stay equal -/
 theorem const_addr_eq_msg : Gen.MaxAddressLength = Gen.MaxMessageLength := by decide
+
+/-! ### `UDPMessage.HeaderSize` / `Size` as TRANSLATED from the current Go source equal the model's
+
+`Hy.Gen.TransUDPSize.*` is regenerated on every run by `verifgen translate` from the text of the two
+methods in core/internal/protocol/proxy.go (Go's `int` = int64 wrap-around explicit; `len(m.Addr)`,
+`len(m.Data)` are parameters; the external `quicvarint.Len` is a function parameter).  Instantiated
+with the model's varint length the regenerated definitions equal `Frag.headerSize` / `Frag.size`
+for EVERY message whose lengths fit an `int` — no sampling involved for this arithmetic. -/
+
+/-- `quicvarint.Len` as the model has it (`Varint.wlen ∘ Varint.minW`; `Props.C04.varintPut_translation_len`
+    shows the repository's own `varintPut` returns the same number): the instantiation of the
+    translator's function parameter -/
+def varintLen (x : Int) : Int := ((Varint.wlen (Varint.minW x.toNat) : Nat) : Int)
+
+theorem headerSize_translation_eq (m : UDPMessage) (h : m.addr.length < 9223372036854775792) :
+    Gen.TransUDPSize.UDPMessage_HeaderSize m.addr.length varintLen = (headerSize m : Nat) := by
+  have hw : 1 ≤ Varint.wlen (Varint.minW m.addr.length) ∧ Varint.wlen (Varint.minW m.addr.length) ≤ 8 := by
+    unfold Varint.wlen; split <;> omega
+  unfold Gen.TransUDPSize.UDPMessage_HeaderSize headerSize varintLen
+  have e : (GoInt.u64 (m.addr.length : Int)).toNat = m.addr.length := by unfold GoInt.u64; omega
+  simp only [e]
+  unfold GoInt.i64
+  omega
+
+theorem size_translation_eq (m : UDPMessage)
+    (h : m.addr.length + m.data.length < 9223372036854775792) :
+    Gen.TransUDPSize.UDPMessage_Size m.addr.length m.data.length varintLen = (size m : Nat) := by
+  have hw : 1 ≤ Varint.wlen (Varint.minW m.addr.length) ∧ Varint.wlen (Varint.minW m.addr.length) ≤ 8 := by
+    unfold Varint.wlen; split <;> omega
+  unfold Gen.TransUDPSize.UDPMessage_Size size
+  rw [headerSize_translation_eq m (by omega)]
+  unfold headerSize GoInt.i64
+  omega
+
+example : Gen.TransUDPSize.UDPMessage_Size 64 100 varintLen = 174 := by decide
 
 /-! ### codec: Serialize / ParseUDPMessage -/
 
